@@ -1,4 +1,5 @@
 """C06 7-parameter transformation equals its similarity formula and is reversible."""
+import datetime
 import math
 import random
 
@@ -15,12 +16,12 @@ RULE = ('every shipped Transformation constant (all enumerated) and random sets 
         'inputs {none, SPD, rank-1, rank-2, zero, diagonal, condition 1e8}.  conform7 judged against the exact rational formula '
         '(1 um); set then negated set returns the start within the stated caps (0.01 mm; 2 mm for AGD sets) / the exactly '
         'evaluated second-order residual for random sets; with vcv and uncertainties: a covariance is returned, symmetric, PSD, '
-        'equal to J Q J^T (1e-12 relative); without uncertainties: None.  distinct = set x octant x radius decade x vcv kind')
+        'equal to J Q J^T (1e-12 relative); without uncertainties: None.  3 % of the judged calls are preceded by calls the property does not speak about (strings, None, numbers or malformed covariance where a parameter set, a date or a 3x3 matrix is required; a Transformation plus a number): not judged, exceptions swallowed.  distinct = set x octant x radius decade x vcv kind')
 ASSUMPTIONS = ['helmert_exact rational evaluation (self-validated against mpmath and finite differences each shard)',
                'sign convention of the Australian technical manuals as written in the property statement: R = [[1,rz,-ry],[-rz,1,rx],[ry,-rx,1]]']
 N = {'quick': 1800, 'thorough': 30000}
 SHARDS = {'quick': 16, 'thorough': 32}
-REQUIRED_COUNTERS = ['same_label_sequences', 'shipped_sets_calls', 'random_sets_calls', 'vcv_judged', 'vcv_none_judged', 'roundtrip_judged']
+REQUIRED_COUNTERS = ['unjudged_calls_before_a_judged_one', 'same_label_sequences', 'shipped_sets_calls', 'random_sets_calls', 'vcv_judged', 'vcv_none_judged', 'roundtrip_judged']
 VCV_KINDS = ['none', 'spd', 'rank1', 'rank2', 'zero', 'diag', 'cond1e8']
 
 
@@ -115,11 +116,30 @@ def set_from_spec(ns, spec):
     return C.Transformation('A', 'B', 0, tf_sd=sd, **{p: spec[p] for p in hx.P7})
 
 
+UNJUDGED = [('conform7', ('x', 1.0, 2.0, '$t')), ('conform7', (-4e6, 2.5e6, -3.6e6, None)), ('conform7', (-4e6, 2.5e6, -3.6e6, '$t', 'vcv')),
+            ('conform7', (-4e6, 2.5e6, -3.6e6, '$t', [[1.0, 2.0]])), ('conform14', (-4e6, 2.5e6, -3.6e6, '2020-01-01', '$t')),
+            ('conform14', (-4e6, 2.5e6, -3.6e6, 2020.5, '$t')), ('conform14', (-4e6, 2.5e6, -3.6e6, None, '$t')),
+            ('conform14', (float('nan'), 'y', None, '$date', '$t')), ('add', ('$t', 5)), ('add', ('$t', 'tomorrow')), ('add', ('$t', None)),
+            ('conform14', (-4e6, 2.5e6, -3.6e6, '$date', '$t', [[1.0, 2.0]]))]
+
+
+def run_unjudged(ns, ctx, case, t):
+    """calls the property does not speak about (rejected argument types and shapes) made before the judged one"""
+    for k in case.get('before') or ():
+        name, args = UNJUDGED[k % len(UNJUDGED)]
+        args = [t if a == '$t' else (datetime.date(2021, 3, 4) if a == '$date' else a) for a in args]
+        if name == 'add':
+            core.unjudged(ctx, lambda a, b: a + b, *args)
+        else:
+            core.unjudged(ctx, getattr(ns.transform, name), *args)
+
+
 def judge(ns, ctx, case):
     C = ns.constants
     T = ns.transform
     t = set_from_spec(ns, case['set'])
     shipped = isinstance(case['set'], str)
+    run_unjudged(ns, ctx, case, t)
     x, y, z = case['xyz']
     V = None if case.get('vcv') is None else np.array(case['vcv'], dtype=float)
     p = hx.params_at(t)
@@ -225,6 +245,8 @@ def run_shard(spec, ctx):
             if n < 2:
                 ctx.sample({k: v for k, v in case.items()})
             n += 1
+            if rnd.random() < 0.03:
+                case['before'] = [rnd.randrange(1000) for _ in range(rnd.choice([1, 2]))]
             judge(ns, ctx, case)
             # interleave: the same point through another constant with the same labels
             t0 = cat[name]
@@ -242,6 +264,8 @@ def run_shard(spec, ctx):
         kind = rnd.choice(VCV_KINDS)
         V = rand_vcv(rnd, kind)
         case = {'set': spec_of(t), 'xyz': rand_point(rnd), 'vcv': None if V is None else V.tolist(), 'vkind': kind}
+        if rnd.random() < 0.03:
+            case['before'] = [rnd.randrange(1000) for _ in range(rnd.choice([1, 2]))]
         judge(ns, ctx, case)
 
 
